@@ -1,7 +1,7 @@
 (* Props_C14.v — C14: location flags follow bounding-box membership and hop distance.
    Only statements, `exact <lemma>` and Print Assumptions.
    (statements written out by tools/mk_props.py from the lemmas they restate) *)
-From IoosQc Require Import Base Generated Location LocationProofs Skel SkelProofs.
+From IoosQc Require Import Base Generated Location LocationProofs Skel SkelBase SkelP_location.
 
 
 (* for EVERY geodesic function, every track length and missing pattern, every box and range_max >= 0 (or absent): the operational model equals the per-position decision list; bbox arity and shape mismatch are rejected (both sides) *)
